@@ -1,5 +1,6 @@
 import LarkVerif.LexModel
 import LarkVerif.LexTiling
+import LarkVerif.LexEmit
 import LarkVerif.Extracted
 /-! # C07 — the lexer tiles the input by documented precedence; contextual refines basic -/
 namespace Props.C07
@@ -37,6 +38,16 @@ theorem executable_lexer_tiles (L : Lexer) (F : Facts) (subset : List Nat) (n : 
     (r.2.2 = false → r.2.1 = n) ∧
     (r.2.2 = true → r.2.1 < n ∧ firstMatch F.mt r.2.1 (L.scanList (L.sorted subset)) = none) :=
   lexAllPieces_tiles L F subset n hpos fuel pos h1 h2
+
+/-- **What the basic lexer returns is that tiling with the ignored pieces dropped.**  `lexBasic` (the loop of `BasicLexer.lex` over `next_token`, which
+    skips `%ignore` matches silently) returns exactly the non-ignored pieces of the run of `executable_lexer_tiles`, in order, and ends in
+    `UnexpectedCharacters` exactly where that run finds nothing to match — with the non-ignored scan terminals as `allowed`. -/
+theorem basic_lexer_emits_the_tiling (L : Lexer) (F : Facts) (all : List Nat) (n : Nat)
+    (hpos : ∀ t p len, F.mt t p = some len → 0 < len ∧ p + len ≤ n) (f1 pos f2 : Nat) (h1 : pos ≤ n) (h2 : n - pos ≤ f1) (h3 : n - pos ≤ f2) :
+    L.lexBasic F all n f1 pos =
+      (emitted (L.lexAllPieces F all n f2 pos).1,
+       if (L.lexAllPieces F all n f2 pos).2.2 then some (.chars (L.lexAllPieces F all n f2 pos).2.1 (L.allowed all)) else none) :=
+  lexBasic_eq_emitted L F all n hpos f1 pos f2 h1 h2 h3
 
 /-- splitting the alternation into chunks (Python's 100-group limit) never changes the token -/
 theorem chunking_irrelevant (m : Matcher) (pos : Nat) (a b : List Nat) :
